@@ -5,9 +5,12 @@ package core
 import (
 	"context"
 	"fmt"
+	"runtime"
 	"sort"
 	"strconv"
 	"strings"
+	"sync"
+	"sync/atomic"
 	"testing"
 	"time"
 
@@ -77,7 +80,17 @@ type c04Cfg struct {
 	pol   int // 0 only-waiting 1 waiting-and-running 2 once-satisfied 3 absent 4 illegal
 	mode  int // 0 NonStrict 1 Strict 2 absent 3 illegal
 	group []int
-	grpOK bool // false: groups annotation malformed (parsed as empty)
+	// shape of the groups annotation: 0 absent, 1 "" (empty string), 2 null, 3 [], 4 JSON list of `group`, 5 not JSON
+	gshape int
+}
+
+// the gang group a configuration DECLARES, read off the annotation by the harness itself: a JSON list is taken
+// literally, every other shape (nothing / empty / null / [] / garbage) means "the gang is a group of its own"
+func (c c04Cfg) declaredGroup(self int) []int {
+	if c.gshape == 4 && len(c.group) > 0 {
+		return append([]int(nil), c.group...)
+	}
+	return []int{self}
 }
 
 func c04PolStr(p int) (string, bool) {
@@ -120,24 +133,34 @@ func (c c04Cfg) annotations(ann map[string]string, r *vRand) {
 	if s, ok := c04ModeStr(c.mode); ok {
 		ann[extension.AnnotationGangMode] = s
 	}
-	if !c.grpOK {
-		ann[extension.AnnotationGangGroups] = "[\"ns/g0\","
-	} else if len(c.group) > 0 {
+	switch c.gshape {
+	case 1:
+		ann[extension.AnnotationGangGroups] = ""
+	case 2:
+		ann[extension.AnnotationGangGroups] = "null"
+	case 3:
+		ann[extension.AnnotationGangGroups] = "[]"
+		if r.Bool() {
+			ann[extension.AnnotationGangGroups] = " [ ] "
+		}
+	case 4:
 		ids := make([]string, len(c.group))
 		for i, g := range c.group {
 			ids[i] = strconv.Quote(c04GangID(g))
 		}
 		ann[extension.AnnotationGangGroups] = "[" + strings.Join(ids, ",") + "]"
+	case 5:
+		ann[extension.AnnotationGangGroups] = []string{"[\"ns/g0\",", "ns/g0", "[\"ns/g0\"", "{", "{}", "7"}[r.Intn(6)]
 	}
 }
 
 // tokens of a config as the model reads it
 func (c c04Cfg) toks() string {
 	grp := c.group
-	if !c.grpOK {
+	if c.gshape != 4 {
 		grp = nil
 	}
-	return fmt.Sprintf("%d %d %d %d %s", c.min, c.pol, c.mode, len(grp), vIntsI(grp))
+	return fmt.Sprintf("%d %d %d %d %d %s", c.min, c.pol, c.mode, c.gshape, len(grp), vIntsI(grp))
 }
 
 func c04PG(g int, c c04Cfg, r *vRand) *v1alpha1.PodGroup {
@@ -288,12 +311,20 @@ func TestVerifC04(t *testing.T) {
 	if vEnvInt("VERIF_C04_NOEXH", 0) != 0 {
 		nExh = 0
 	}
-	for idx := 0; idx < n+nExh; idx++ {
+	// concurrency stream (cases n+nExh .. n+nExh+nConc-1): after a sequential prefix the informer goroutine and the
+	// scheduling goroutine really race on the same pods; see "concurrent phase" below.
+	nConc := n / 10
+	if v := vEnvInt("VERIF_C04_NCONC", -1); v >= 0 {
+		nConc = v
+	}
+	concRounds, concOverlaps, concCalls := 0, 0, 0
+	for idx := 0; idx < n+nExh+nConc; idx++ {
 		r := h.Begin(idx)
 		if r == nil {
 			continue
 		}
-		exh := idx >= n
+		exh := idx >= n && idx < n+nExh
+		conc := idx >= n+nExh
 		// ---------- the case's universe ----------
 		nG := r.Range(1, 3)
 		if exh {
@@ -319,10 +350,16 @@ func TestVerifC04(t *testing.T) {
 		}
 		cfgs := make([]c04Cfg, nG)
 		ways := make([]int, nG)
-		declGroup := make([][]int, nG) // the group a gang's objects declare ([g] when absent / malformed)
+		linkCfg := make([][]int, nG) // late linking: the group a later annotation-only PodGroup update declares (nil: none)
 		strictBias := r.Chance(2, 3)
+		// "the gang is a group of its own", said in every shape the annotation can have
+		emptyShape := func() int { return []int{0, 0, 1, 2, 3, 3, 5}[r.Intn(7)] }
+		// late linking: the PodGroups are created without a groups annotation and linked into one gang group by a later
+		// annotation-only update;  others-only: gang 0 names only gang 1, gang 1 is a group of its own
+		lateLink := !exh && nG > 1 && len(groupOf[0]) > 1 && r.Chance(1, 6)
+		othersOnly := !exh && !lateLink && nG > 1 && r.Chance(1, 30)
 		for g := 0; g < nG; g++ {
-			c := c04Cfg{min: r.Range(1, 3), pol: r.Intn(4), mode: 1, grpOK: true}
+			c := c04Cfg{min: r.Range(1, 3), pol: r.Intn(4), mode: 1, gshape: 4}
 			if r.Chance(1, 12) {
 				c.min = r.Range(-1, 0)
 			}
@@ -337,24 +374,30 @@ func TestVerifC04(t *testing.T) {
 			for i, j := range r.Perm(len(grp)) {
 				grp[i], grp[j] = grp[j], grp[i]
 			}
-			declGroup[g] = groupOf[g]
-			if len(grp) == 1 && r.Chance(2, 3) {
-				grp = nil
-			}
-			if len(groupOf[g]) > 1 && r.Chance(1, 15) {
-				// inconsistent declaration: this gang forgets / garbles its groups annotation
-				if r.Bool() {
-					grp = nil
-				} else {
-					c.grpOK = false
-				}
-				declGroup[g] = []int{g}
-			}
 			c.group = grp
-			cfgs[g] = c
+			switch {
+			case len(grp) == 1 && r.Chance(2, 3):
+				c.gshape, c.group = emptyShape(), nil
+			case len(grp) > 1 && r.Chance(1, 15):
+				// inconsistent declaration: this gang forgets / garbles its groups annotation
+				c.gshape, c.group = emptyShape(), nil
+			}
 			if r.Chance(2, 5) {
 				ways[g] = r.Range(1, 2)
 			}
+			if lateLink && len(grp) > 1 {
+				ways[g], linkCfg[g] = 0, grp
+				c.gshape, c.group = emptyShape(), nil
+			}
+			cfgs[g] = c
+		}
+		if othersOnly {
+			cfgs[0].gshape, cfgs[0].group = 4, []int{1}
+			cfgs[1].gshape, cfgs[1].group = emptyShape(), nil
+			h.Tag("stream:others-only-group")
+		}
+		if lateLink {
+			h.Tag("stream:late-link")
 		}
 		var pods []*c04PodSt
 		for g := 0; g < nG; g++ {
@@ -370,8 +413,8 @@ func TestVerifC04(t *testing.T) {
 		if exh {
 			ec := exhCfgs[(idx-n)/exhPer]
 			for g := 0; g < 2; g++ {
-				groupOf[g], declGroup[g], ways[g] = []int{0, 1}, []int{0, 1}, 0
-				cfgs[g] = c04Cfg{min: 1, pol: ec[0], mode: ec[1], group: []int{0, 1}, grpOK: true}
+				groupOf[g], ways[g] = []int{0, 1}, 0
+				cfgs[g] = c04Cfg{min: 1, pol: ec[0], mode: ec[1], group: []int{0, 1}, gshape: 4}
 			}
 			pods = []*c04PodSt{{id: 0, g: 0}, {id: 10, g: 1}}
 			h.Tag("exhaustive")
@@ -390,9 +433,40 @@ func TestVerifC04(t *testing.T) {
 		pgExists := make([]bool, nG)
 		prev := map[int]c04Sum{}
 		released, strictRejects := 0, 0
+		// What the gangs DECLARE, kept by the harness from the objects it sent (never read back from the cache): the
+		// latest PodGroup object that reached a cached gang, or the first valid annotated pod of a gang that had nothing
+		// declared.  Absent / illegal policy = the configured default once-satisfied; absent / illegal mode = Strict.
+		type c04Decl struct {
+			min, pol int
+			strict   bool
+			group    []int
+		}
+		decl := make([]*c04Decl, nG) // nil: nothing valid declared yet, or the gang left the cache
+		scope := make([]map[int]bool, nG)
+		declare := func(g int, c c04Cfg, path string) {
+			pol := c.pol
+			if pol > 2 {
+				pol = 2
+			}
+			decl[g] = &c04Decl{min: c.min, pol: pol, strict: c.mode != 0, group: c.declaredGroup(g)}
+			if scope[g] == nil {
+				scope[g] = map[int]bool{}
+			}
+			for _, x := range decl[g].group {
+				scope[g][x] = true
+			}
+			h.Tag(fmt.Sprintf("declared:%s groups-shape=%d", path, c.gshape))
+		}
+		declGroupOf := func(g int) []int {
+			if decl[g] != nil {
+				return decl[g].group
+			}
+			return []int{g}
+		}
+		// "the group was satisfied before": some member of a gang this gang was ever declared in one group with was bound
 		groupSatisfied := func(g int) bool {
-			for _, x := range declGroup[g] {
-				if everBound[x] {
+			for x := 0; x < nG; x++ {
+				if everBound[x] && (x == g || scope[g][x] || scope[x][g]) {
 					return true
 				}
 			}
@@ -448,22 +522,27 @@ func TestVerifC04(t *testing.T) {
 				if gq >= nG {
 					continue
 				}
-				for _, x := range declGroup[gq] {
+				for _, x := range declGroupOf(gq) {
 					s, ok := sums[x]
+					var d *c04Decl
+					if x < nG {
+						d = decl[x]
+					}
 					switch {
 					case !ok:
-						h.Fail("C04:released-while-group-unsatisfied", "pod %d released but gang %d of its group is not in the cache", q, x)
-					case !s.init:
-						h.Fail("C04:released-while-group-unsatisfied", "pod %d released but gang %d of its group is not initialised", q, x)
+						h.Fail("C04:released-while-group-unsatisfied", "pod %d released but gang %d of its declared group is not in the cache", q, x)
+					case d == nil:
+						h.Fail("C04:released-while-group-unsatisfied", "pod %d released but gang %d of its declared group has no valid declaration (not initialised)", q, x)
 					default:
+						// the sets are the cache's state; minimum, policy and group are what was DECLARED
 						cnt := len(s.wa)
-						if s.pol == 1 {
+						if d.pol == 1 {
 							cnt += len(s.bo)
 						}
 						// under the once-satisfied policy a group that was satisfied before is no longer constrained
-						onceOK := s.pol != 0 && s.pol != 1 && (groupSatisfied(gq) || groupSatisfied(x))
-						if cnt < s.min && !onceOK {
-							h.Fail("C04:released-while-group-unsatisfied", "pod %d released but gang %d holds %d < min %d (policy %d)", q, x, cnt, s.min, s.pol)
+						onceOK := d.pol == 2 && (groupSatisfied(gq) || groupSatisfied(x))
+						if cnt < d.min && !onceOK {
+							h.Fail("C04:released-while-group-unsatisfied", "pod %d released but gang %d holds %d < declared min %d (declared policy %d)", q, x, cnt, d.min, d.pol)
 						}
 					}
 				}
@@ -475,16 +554,16 @@ func TestVerifC04(t *testing.T) {
 			// ---- clause 1b: on release every member parked at Permit is released with it (all, not some) ----
 			if kind == 1 && verdict == 0 {
 				for q, gq := range fwBefore {
-					if c04Has(declGroup[ps.g], gq) && !c04Has(fh.allowed, q) {
+					if c04Has(declGroupOf(ps.g), gq) && !c04Has(fh.allowed, q) {
 						h.Fail("C04:waiting-member-not-released", "pod %d succeeded at Permit but waiting member %d of gang %d stays parked", ps.id, q, gq)
 					}
 				}
 			}
 			// ---- clause 2: strict mode, failed / rolled-back member => every waiting member of the group rejected ----
 			if kind == 2 || kind == 3 {
-				if s, ok := prev[ps.g]; ok && s.init && s.strict && !(s.pol != 0 && s.pol != 1 && groupSatisfied(ps.g)) {
+				if _, ok := prev[ps.g]; ok && decl[ps.g] != nil && decl[ps.g].strict && !(decl[ps.g].pol == 2 && groupSatisfied(ps.g)) {
 					for q, gq := range fwBefore {
-						if q == ps.id || !c04Has(declGroup[ps.g], gq) {
+						if q == ps.id || !c04Has(declGroupOf(ps.g), gq) {
 							continue
 						}
 						if !c04Has(fh.rejected, q) {
@@ -520,6 +599,11 @@ func TestVerifC04(t *testing.T) {
 					}
 				}
 			}
+			for g := 0; g < nG; g++ {
+				if _, ok := sums[g]; !ok {
+					decl[g] = nil // the gang object is gone: whatever comes next starts from nothing
+				}
+			}
 			prev = sums
 		}
 
@@ -552,6 +636,8 @@ func TestVerifC04(t *testing.T) {
 		}
 
 		// pod object of the moment (annotations are per pod event: the first valid one initialises the gang)
+		var mkC c04Cfg // the configuration and min-validity the last mkPod wrote into the pod
+		mkMinOK := 1
 		mkPod := func(ps *c04PodSt, node string) (*corev1.Pod, string) {
 			way := ways[ps.g]
 			c := cfgs[ps.g]
@@ -566,6 +652,7 @@ func TestVerifC04(t *testing.T) {
 				}
 			}
 			pod := c04Pod(ps.id, ps.g, way, node, c, minOK, r)
+			mkC, mkMinOK = c, minOK
 			if way == 0 {
 				return pod, "0"
 			}
@@ -578,16 +665,35 @@ func TestVerifC04(t *testing.T) {
 			return ""
 		}
 
+		lastPG := make([]*v1alpha1.PodGroup, nG)
 		doPGAdd := func(g int, update bool) {
 			c := cfgs[g]
-			if update && r.Chance(2, 3) {
-				// a PodGroup update that changes min / policy / mode (the group stays as declared)
-				c.min = r.Range(0, 3)
-				c.pol = r.Intn(5)
-				c.mode = r.Intn(4)
+			if update {
+				switch v := r.Intn(6); {
+				case v < 2: // annotation-only update: policy / mode change, the spec does not
+					c.pol = r.Intn(5)
+					c.mode = r.Intn(4)
+					h.Tag("pgupd:annotation-only")
+				case v < 4: // spec (min) and annotations change
+					c.min = r.Range(0, 3)
+					c.pol = r.Intn(5)
+					c.mode = r.Intn(4)
+					h.Tag("pgupd:spec-and-annotations")
+				default: // the object is re-sent unchanged (resync)
+					h.Tag("pgupd:unchanged")
+				}
+				if linkCfg[g] != nil && c.gshape != 4 && r.Chance(2, 3) {
+					// late linking: the groups annotation is added by an update (the only way the declared group changes)
+					c.gshape, c.group = 4, linkCfg[g]
+					h.Tag("pgupd:links-group")
+				}
 				cfgs[g] = c
 			}
 			pg := c04PG(g, c, r)
+			old := lastPG[g]
+			if old == nil {
+				old = pg
+			}
 			fwB := begin()
 			kindS := "pgadd"
 			if update {
@@ -596,12 +702,16 @@ func TestVerifC04(t *testing.T) {
 			h.Op("%s %d %s", kindS, g, c.toks())
 			pan := h.Guard(func() {
 				if update {
-					cache.onPodGroupUpdate(pg, pg)
+					cache.onPodGroupUpdate(old, pg)
 				} else {
 					cache.onPodGroupAdd(pg)
 				}
 			})
 			pgExists[g] = pgExists[g] || !update
+			lastPG[g] = pg
+			if _, cached := prev[g]; !update || cached {
+				declare(g, c, "podgroup") // an update for a gang that is not cached is dropped
+			}
 			h.Tag("op:" + kindS)
 			finish(0, nil, 9, fwB, pan)
 		}
@@ -627,6 +737,9 @@ func TestVerifC04(t *testing.T) {
 					cache.onPodAdd(pod)
 				}
 			})
+			if !term && ways[ps.g] != 0 && decl[ps.g] == nil && mkMinOK == 1 {
+				declare(ps.g, mkC, "pod") // the first valid annotated pod initialises a gang that has nothing declared
+			}
 			if !term {
 				ps.added = true
 				if node {
@@ -782,6 +895,9 @@ func TestVerifC04(t *testing.T) {
 		// ---------- history ----------
 		nOps := r.Range(6, 30)
 		scripted := r.Chance(1, 2) // half of the histories start with "everything arrives, then members are scheduled"
+		if conc {
+			nOps, scripted = r.Range(0, 8), true
+		}
 		if exh {
 			nOps, scripted = 0, false
 			doPGAdd(0, false)
@@ -817,6 +933,11 @@ func TestVerifC04(t *testing.T) {
 					doPGAdd(g, false)
 				}
 			}
+			for g := 0; g < nG; g++ {
+				if linkCfg[g] != nil && r.Chance(3, 4) {
+					doPGAdd(g, true)
+				}
+			}
 			for _, i := range r.Perm(len(pods)) {
 				if r.Chance(9, 10) {
 					doPodEvt(pods[i], false, false, false)
@@ -837,6 +958,7 @@ func TestVerifC04(t *testing.T) {
 					pg := c04PG(g, cfgs[g], r)
 					pan := h.Guard(func() { cache.onPodGroupDelete(pg) })
 					pgExists[g] = false
+					lastPG[g] = nil
 					h.Tag("op:pgdel")
 					finish(0, nil, 9, fwB, pan)
 				case r.Chance(1, 8):
@@ -919,13 +1041,445 @@ func TestVerifC04(t *testing.T) {
 				}
 			}
 		}
+
+		// ---------- concurrent phase ----------
+		// Two goroutines race on the same real GangCache: I replays informer events (onPodAdd / onPodUpdate /
+		// onPodDelete) for the pods of the gangs, S runs the scheduling calls (Permit [+AllowGangGroup] / Unreserve /
+		// PostBind) for the same pods in protocol order.  A round ends when both are parked (barrier); only then are the
+		// summaries read.  The model does not follow this phase (the interleaving is not an input): the lines written
+		// here start with '#'.  The oracle demands only what holds under EVERY interleaving of the critical sections on
+		// the unchanged tree (Lean: setChild_atomic_safe, permit_race_bound):
+		//   * exactly-one-set for every member that got no out-of-contract call;
+		//   * a successful Permit releases every member parked before it (scheduling goroutine only);
+		//   * after a successful Permit every gang of the group holds, at the barrier, its minimum minus the number of
+		//     racing removals (delete / unreserve / bind of a waiting member) that completed after the Permit began.
+		// All calls of this phase are inside the framework / informer contract: Permit only for a pod that is a member
+		// and not bound at the last barrier and not in flight; a node name is shown only for a pod that was bound at
+		// the last barrier and never taken back.
+		if conc {
+			h.Tag("concurrent")
+			h.Op("# concurrent phase")
+			type iEv struct {
+				kind string // add0 upd0 updN del
+				ps   *c04PodSt
+				pod  *corev1.Pod
+			}
+			type iBlock struct {
+				once bool
+				evs  []iEv
+			}
+			type sCyc struct {
+				ps     *c04PodSt
+				act    int // 0 permit, 1 unreserve, 2 postbind
+				follow int // after Permit: Success -> 0 stay released, 1 PostBind, 2 Unreserve; Wait -> 0/1 stay parked, 2 Unreserve
+				pod    *corev1.Pod
+			}
+			type done struct {
+				seq0, seq         int64
+				who               byte
+				kind              string
+				p, g, verdict     int
+				allowed, rejected []int
+				fwBefore          map[int]int
+			}
+			snap := func() map[int]c04Sum {
+				sums := map[int]c04Sum{}
+				for name, s := range mgr.GetGangSummaries() {
+					sums[c04ParseID(name, "ns/g")] = c04Project(s)
+				}
+				return sums
+			}
+			rounds := r.Range(6, 20)
+			deadline := time.Now().Add(time.Duration(vEnvInt("VERIF_C04_CONC_MS", 250)) * time.Millisecond)
+			failed := false
+			for round := 0; round < rounds && !failed && time.Now().Before(deadline); round++ {
+				start := snap()
+				in := func(ps *c04PodSt, f func(c04Sum) []int) bool {
+					s, ok := start[ps.g]
+					return ok && c04Has(f(s), ps.id)
+				}
+				isChild := func(ps *c04PodSt) bool { return in(ps, func(s c04Sum) []int { return s.ch }) }
+				isBound := func(ps *c04PodSt) bool { return in(ps, func(s c04Sum) []int { return s.bo }) }
+				// ---- plan of the scheduling goroutine ----
+				var plan []sCyc
+				used := map[int]bool{}
+				for c, nCyc := 0, r.Range(1, 2); c < nCyc; c++ {
+					var cands []*c04PodSt
+					for _, x := range pods {
+						switch {
+						case used[x.id]:
+						case x.flight >= 2 || (x.flight == 1 && r.Chance(1, 3)):
+							cands = append(cands, x)
+						case x.flight == 0 && x.added && isChild(x) && !isBound(x) && !x.bound:
+							cands = append(cands, x, x)
+						}
+					}
+					if len(cands) == 0 {
+						break
+					}
+					x := cands[r.Intn(len(cands))]
+					used[x.id] = true
+					cy := sCyc{ps: x}
+					cy.pod, _ = mkPod(x, "")
+					switch x.flight {
+					case 3, 1:
+						cy.act = 1
+					case 2:
+						cy.act = 2
+						if r.Chance(1, 5) {
+							cy.act = 1
+						}
+					default:
+						cy.act, cy.follow = 0, r.Intn(3)
+					}
+					plan = append(plan, cy)
+				}
+				// ---- plan of the informer goroutine: blocks that may be repeated while S runs ----
+				var blocks []iBlock
+				ev := func(kind string, x *c04PodSt) iEv {
+					node := kind == "updN" || (kind == "del" && x.seenNode)
+					pod, _ := mkPod(x, nodeOf(node))
+					return iEv{kind: kind, ps: x, pod: pod}
+				}
+				planned := map[int]bool{}
+				for _, cy := range plan {
+					x := cy.ps
+					switch {
+					case !x.added:
+					case r.Chance(1, 8):
+						blocks = append(blocks, iBlock{evs: []iEv{ev("del", x), ev("add0", x)}}) // delete + re-create racing the cycle
+						planned[x.id] = true
+					case !x.seenNode && r.Chance(5, 6):
+						blocks = append(blocks, iBlock{evs: []iEv{ev("upd0", x)}}) // the update that races setChild against addAssumedPod / addBoundPod
+						planned[x.id] = true
+					}
+				}
+				for _, i := range r.Perm(len(pods)) {
+					x := pods[i]
+					if planned[x.id] || len(blocks) >= 4 || r.Chance(1, 2) {
+						continue
+					}
+					switch {
+					case !x.added:
+						if r.Chance(1, 2) {
+							blocks = append(blocks, iBlock{once: true, evs: []iEv{ev("add0", x)}})
+						}
+					case r.Chance(1, 10):
+						blocks = append(blocks, iBlock{once: true, evs: []iEv{ev("del", x)}})
+					case r.Chance(1, 6):
+						blocks = append(blocks, iBlock{evs: []iEv{ev("del", x), ev("add0", x)}})
+					case isBound(x) && x.bound && (x.seenNode || r.Chance(1, 2)):
+						blocks = append(blocks, iBlock{evs: []iEv{ev("updN", x)}})
+					case !x.seenNode:
+						blocks = append(blocks, iBlock{evs: []iEv{ev("upd0", x)}})
+					}
+				}
+				if len(plan) == 0 && len(blocks) == 0 {
+					continue
+				}
+				// ---- run ----
+				var ctr atomic.Int64
+				var started, sDone, panicked atomic.Bool
+				var iLog, sLog []done
+				var wg sync.WaitGroup
+				maxIt := r.Range(4, 120) // I keeps delivering until S is done (or this cap)
+				drift := r.Intn(8)
+				wg.Add(2)
+				go func() { // I: the informer goroutine
+					defer wg.Done()
+					defer func() {
+						if recover() != nil {
+							panicked.Store(true)
+						}
+						started.Store(true)
+					}()
+					for it := 0; it < maxIt; it++ {
+						ran := false
+						for _, b := range blocks {
+							if b.once && it > 0 {
+								continue
+							}
+							ran = true
+							for _, e := range b.evs {
+								s0 := ctr.Load()
+								switch e.kind {
+								case "add0":
+									cache.onPodAdd(e.pod)
+								case "del":
+									cache.onPodDelete(e.pod)
+								default:
+									cache.onPodUpdate(e.pod, e.pod)
+								}
+								iLog = append(iLog, done{seq0: s0, seq: ctr.Add(1), who: 'I', kind: e.kind, p: e.ps.id, g: e.ps.g, verdict: 9})
+							}
+						}
+						started.Store(true)
+						if !ran || sDone.Load() {
+							break
+						}
+					}
+				}()
+				go func() { // S: the scheduling goroutine
+					defer wg.Done()
+					defer func() {
+						if recover() != nil {
+							panicked.Store(true)
+						}
+						sDone.Store(true)
+					}()
+					for i := 0; i < 2000 && !started.Load(); i++ {
+						runtime.Gosched()
+					}
+					for i := 0; i < drift; i++ {
+						runtime.Gosched()
+					}
+					call := func(kind string, cy sCyc, f func() int) int {
+						fh.allowed, fh.rejected = nil, nil
+						fwB := fwSnapshot()
+						s0 := ctr.Load()
+						v := f()
+						d := done{seq0: s0, seq: ctr.Add(1), who: 'S', kind: kind, p: cy.ps.id, g: cy.ps.g, verdict: v, fwBefore: fwB,
+							allowed: append([]int(nil), fh.allowed...), rejected: append([]int(nil), fh.rejected...)}
+						sort.Ints(d.allowed)
+						sort.Ints(d.rejected)
+						sLog = append(sLog, d)
+						settle()
+						return v
+					}
+					unres := func(cy sCyc) {
+						delete(fh.waiting, cy.ps.id)
+						call("unres", cy, func() int {
+							mgr.Unreserve(ctx, framework.NewCycleState(), cy.pod, "n1", fh, Name)
+							return 9
+						})
+						cy.ps.flight = 0
+					}
+					postbind := func(cy sCyc) {
+						delete(fh.waiting, cy.ps.id)
+						call("postbind", cy, func() int {
+							mgr.PostBind(ctx, cy.pod, "n1")
+							return 9
+						})
+						cy.ps.flight = 0
+						cy.ps.bound = true
+					}
+					for _, cy := range plan {
+						switch cy.act {
+						case 1:
+							unres(cy)
+						case 2:
+							postbind(cy)
+						default:
+							v := call("permit", cy, func() int {
+								_, st := mgr.Permit(ctx, cy.pod)
+								switch st {
+								case Wait:
+									fh.waiting[cy.ps.id] = &c04WP{h: fh, pod: cy.pod, p: cy.ps.id, g: cy.ps.g}
+									return 1
+								case Success:
+									mgr.AllowGangGroup(cy.pod, fh, Name)
+									mgr.SucceedGangScheduling()
+									return 0
+								case PodGroupNotFound:
+									return 2
+								}
+								return 3
+							})
+							switch v {
+							case 0:
+								cy.ps.flight = 2
+								if cy.follow == 1 {
+									postbind(cy)
+								} else if cy.follow == 2 {
+									unres(cy)
+								}
+							case 1:
+								cy.ps.flight = 1
+								if cy.follow == 2 {
+									unres(cy)
+								}
+							default:
+								cy.ps.flight = 3
+								if cy.follow == 2 {
+									unres(cy)
+								}
+							}
+						}
+					}
+				}()
+				wg.Wait()
+				// ---- barrier: both goroutines are parked ----
+				concRounds++
+				all := append(append([]done(nil), iLog...), sLog...)
+				sort.Slice(all, func(a, b int) bool { return all[a].seq < all[b].seq })
+				concCalls += len(all)
+				overlaps := 0
+				for _, sc := range sLog {
+					for _, ic := range iLog {
+						if ic.seq > sc.seq0 && ic.seq0 < sc.seq {
+							overlaps++
+						}
+					}
+				}
+				if overlaps > 0 {
+					concOverlaps++
+					h.Tag("conc:round-with-overlapping-calls")
+					h.Nontrivial()
+				} else {
+					h.Tag("conc:round-without-overlap")
+				}
+				for _, d := range all { // harness view of the informer side, in completion order
+					if d.who != 'I' {
+						continue
+					}
+					for _, x := range pods {
+						if x.id != d.p {
+							continue
+						}
+						switch d.kind {
+						case "add0":
+							x.added = true
+						case "updN":
+							x.seenNode = true
+						case "del":
+							x.added, x.bound, x.tainted, x.seenNode = false, false, false, false
+						}
+					}
+				}
+				trace := func() {
+					h.Op("# round %d: observed order of completed calls (I informer goroutine, S scheduling goroutine; xN = N times in a row)", round)
+					for i := 0; i < len(all); {
+						j := i
+						for j+1 < len(all) && all[j+1].who == 'I' && all[i].who == 'I' && all[j+1].kind == all[i].kind && all[j+1].p == all[i].p {
+							j++
+						}
+						d := all[i]
+						line := fmt.Sprintf("# %c %s %d %d", d.who, d.kind, d.p, d.g)
+						if d.kind == "permit" {
+							line += fmt.Sprintf(" -> %d", d.verdict)
+						}
+						if len(d.allowed) > 0 {
+							line += " allowed " + vIntsI(d.allowed)
+						}
+						if len(d.rejected) > 0 {
+							line += " rejected " + vIntsI(d.rejected)
+						}
+						if j > i {
+							line += fmt.Sprintf(" x%d", j-i+1)
+						}
+						h.Op("%s", line)
+						i = j + 1
+					}
+				}
+				traced := false
+				fail := func(fp, format string, a ...interface{}) {
+					if !traced {
+						trace()
+						traced = true
+					}
+					failed = true
+					h.Fail(fp, "round %d: %s", round, fmt.Sprintf(format, a...))
+				}
+				if panicked.Load() {
+					fail("C04:panic", "an entry point panicked in the concurrent phase")
+				}
+				end := snap()
+				var ids []int
+				for id := range end {
+					ids = append(ids, id)
+				}
+				sort.Ints(ids)
+				// (a) exactly one of pending / waiting / bound
+				for _, id := range ids {
+					s := end[id]
+					for _, p := range s.ch {
+						cnt := vB(c04Has(s.pe, p)) + vB(c04Has(s.wa, p)) + vB(c04Has(s.bo, p))
+						taint := false
+						for _, x := range pods {
+							if x.id == p && x.tainted {
+								taint = true
+							}
+						}
+						if cnt == 0 {
+							fail("C04:member-in-no-set", "pod %d is a child of gang %d but in none of pending/waiting/bound at the barrier", p, id)
+						}
+						if cnt > 1 && !taint {
+							fail("C04:pod-in-two-sets", "concurrent informer / scheduling calls left pod %d of gang %d in pending=%v waiting=%v bound=%v at the barrier",
+								p, id, c04Has(s.pe, p), c04Has(s.wa, p), c04Has(s.bo, p))
+						}
+					}
+				}
+				for _, d := range sLog {
+					if d.kind != "permit" {
+						continue
+					}
+					h.Tag(fmt.Sprintf("conc:permit verdict=%d", d.verdict))
+					if d.verdict != 0 {
+						continue
+					}
+					// (b) all, not some (the waiting map belongs to the scheduling goroutine)
+					for q, gq := range d.fwBefore {
+						if c04Has(cfgs[d.g].declaredGroup(d.g), gq) && !c04Has(d.allowed, q) {
+							fail("C04:waiting-member-not-released", "pod %d succeeded at Permit but waiting member %d of gang %d stays parked", d.p, q, gq)
+						}
+					}
+					// (c) each gang was valid when inspected: at the barrier it still holds min minus the racing removals
+					for _, x := range cfgs[d.g].declaredGroup(d.g) {
+						removals, deleted := 0, false
+						for _, e := range all {
+							if e.g != x || e.seq <= d.seq0 {
+								continue
+							}
+							switch e.kind {
+							case "del":
+								removals++
+								deleted = true
+							case "unres":
+								removals++
+							case "postbind":
+								if se, ok := end[x]; !ok || se.pol != 1 {
+									removals++
+								}
+							}
+						}
+						if deleted && ways[x] != 0 {
+							h.Tag("conc:racy-release gang re-created")
+							continue // an annotation gang may have been dropped and re-created with another pod's parameters
+						}
+						se, ok := end[x]
+						if !ok {
+							fail("C04:racy-release-gang-missing", "pod %d released but gang %d of its group is not in the cache and no racing delete explains it", d.p, x)
+							continue
+						}
+						cnt := len(se.wa)
+						if se.pol == 1 {
+							cnt += len(se.bo)
+						}
+						if se.pol != 0 && se.pol != 1 && se.sat {
+							h.Tag("conc:racy-release exempt")
+							continue
+						}
+						h.Tag(fmt.Sprintf("conc:racy-release removals=%d", removals))
+						if !se.init || cnt+removals < se.min {
+							fail("C04:racy-release-below-min", "pod %d released but gang %d (init %v) holds %d at the barrier with only %d racing removals < min %d (policy %d)",
+								d.p, x, se.init, cnt, removals, se.min, se.pol)
+						}
+					}
+				}
+			}
+		}
 		if released >= 2 || strictRejects >= 1 {
 			h.Nontrivial()
 		}
 		h.End()
 	}
+	h.Extra("concurrent_rounds", concRounds)
+	h.Extra("concurrent_rounds_with_overlapping_calls", concOverlaps)
+	h.Extra("concurrent_completed_calls", concCalls)
 	h.Close("history of 6-30 (+scripted prefix) informer events and scheduling-cycle calls over 1-3 gangs in 1-3 gang groups, " +
 		"1-4 pods each, 3 match policies x 2 modes (+absent/illegal values), PodGroup / annotation / lightweight-label gangs; " +
 		"non-trivial = at least two members released from Permit or at least one strict-mode group rejection that hit a waiting pod; " +
-		fmt.Sprintf("plus an exhaustive stream: all 14^%d call sequences after a fixed arrival prefix on 2 gangs x 1 pod for %d (policy, mode) pairs", exhLen, len(exhCfgs)))
+		fmt.Sprintf("plus an exhaustive stream: all 14^%d call sequences after a fixed arrival prefix on 2 gangs x 1 pod for %d (policy, mode) pairs; ", exhLen, len(exhCfgs))+
+		fmt.Sprintf("plus a concurrency stream of %d cases: after a sequential prefix an informer goroutine (pod add / update / delete, repeated) races a scheduling goroutine "+
+			"(Permit / Unreserve / PostBind in protocol order) on the same pods for 6-20 rounds, oracle at every barrier; non-trivial there = a round in which calls of the two goroutines overlapped in time", nConc))
 }
